@@ -319,7 +319,7 @@ func (obj *Package) SetIfHas(name string, value Object, private bool) (vv *VarVa
 			if vv.Export {
 				for _, u := range obj.Users {
 					u.mu.Lock()
-					if _, has := u.vars[name]; !has {
+					if xv := u.vars[name]; xv == nil || Unbound == xv.Val {
 						u.vars[name] = vv
 					}
 					u.mu.Unlock()
@@ -502,7 +502,7 @@ func (obj *Package) Export(name string) {
 			vv.Export = true
 			for _, u := range obj.Users {
 				u.mu.Lock()
-				if xv := u.vars[name]; xv == nil {
+				if xv := u.vars[name]; xv == nil || Unbound == xv.Val {
 					u.vars[name] = vv
 				}
 				u.mu.Unlock()
